@@ -346,7 +346,7 @@ func (g *gen) step() {
 	}
 	pick := r.Intn(100)
 	switch {
-	case pick < 12 && len(g.streams) < g.maxStr:
+	case (pick < 14 || len(g.streams) == 0) && len(g.streams) < g.maxStr:
 		st := &gstream{id: g.nextID, reqSent: true}
 		g.nextID += 2
 		o := Op{From: "C", Kind: "headers", ID: st.id, Fields: g.fields(reqFields[:4]), Prio: g.prio(), Splits: g.splits(), Valid: true}
@@ -358,7 +358,7 @@ func (g *gen) step() {
 		}
 		g.streams = append(g.streams, st)
 		g.do(o)
-	case pick < 40 && len(live) > 0:
+	case pick < 50 && len(live) > 0:
 		st := live[r.Intn(len(live))]
 		switch {
 		case from == "C" && !st.pushed && st.reqSent && !st.reqEnded && !st.rstC:
@@ -375,7 +375,7 @@ func (g *gen) step() {
 		default:
 			g.winupd(from)
 		}
-	case pick < 46 && len(live) > 0:
+	case pick < 55 && len(live) > 0:
 		// trailers
 		st := live[r.Intn(len(live))]
 		if from == "C" && !st.pushed && st.reqSent && !st.reqEnded && !st.rstC {
@@ -387,7 +387,7 @@ func (g *gen) step() {
 		} else {
 			g.winupd(from)
 		}
-	case pick < 70:
+	case pick < 72:
 		g.winupd(from)
 	case pick < 80:
 		g.settings(from)
@@ -437,7 +437,7 @@ func Generate(r *rng.R, idx int) ([]Op, bool) {
 		init: map[string]uint32{"C": 65535, "S": 65535}, maxf: map[string]uint32{"C": 16384, "S": 16384}}
 	defer g.s.Close()
 	g.maxStr = 1 + r.Intn(4)
-	g.winReg = r.Intn(4)
+	g.winReg = []int{0, 0, 0, 1, 1, 1, 2, 2, 3, 3}[r.Intn(10)]
 	switch g.winReg {
 	case 0:
 		g.dataReg = r.Intn(2)
